@@ -253,22 +253,17 @@ def check(repo, res, tier):
         res.check(rs is None, "R-RNG", ps, "draw(%s)" % norm(c)[:40], "no private random_state", "random_state=%s passed" % norm(rs), node=c)
 
     # ---------------------------------------------------------------- R-PURE
-    ctx = S.Ctx(repo)
-    for fn in (ctx.fr, ctx.tl, ctx.up, ctx.cj):
-        df = dataflow_of(fn)
-        xs = [p for p in fn.params if p in ("x", "x_new")]
-        bad = [d for d in df.defs if d.name in xs and d.kind in ("mutate", "aug", "append")]
-        res.check(not bad, "R-PURE", fn, "no-in-place", "%s does not modify its state argument in place" % fn.name,
-                  "%s modifies its input state in place: %s (a repeated run would not start from the same state)" % (fn.name, [norm(b.stmt) for b in bad]),
-                  node=bad[0].stmt if bad else None)
-    jf = ctx.jump
-    jdf, jcfg = dataflow_of(jf), cfg_of(jf)
-    inits = [d for d in jdf.defs if d.kind == "assign" and d.value is not None and "self._x0" in norm(d.value) and d.name != "self"]
-    ok = bool(inits) and all(isinstance(d.value, ast.Call) and (dotted(d.value.func) in ("copy.deepcopy", "np.copy", "np.array", "copy.copy") or norm(d.value.func).endswith(".copy")) for d in inits)
-    res.check(ok, "R-PURE", jf, "copy-initial-state", "each run starts from a copy of self._x0", "a run works on self._x0 itself: %s" % [norm(d.stmt) for d in inits],
-              node=inits[0].stmt if inits else None)
+    # a repeated seeded run reproduces the first one only if a run leaves nothing behind: two consecutive runs of _jump on one model
+    # object, interpreted with one scripted random stream, must both be the walk defined by the model (in particular the second run
+    # starts from the unchanged initial state and no counter / buffer kept on the instance alters it)
+    from ..rules import stepx as X
+    res.rule("R-WALK", "two consecutive runs on one model object (one random stream) are both the walk defined by the model: a run leaves nothing behind that changes the next")
+    nw = X.check_walks(repo, res, rule="R-PURE")
+    res.floor("walk scenarios interpreted (two runs each)", nw, 15)
+    X.check_update(repo, res, rule="R-PURE")
+    jf = repo.resolve_method(cls, "_jump")
     # nothing written by a run may be read by the next run before being re-initialised (hidden state between runs)
-    for fn_ in (jf, repo.resolve_method(cls, "solve_stochast")):
+    for fn_ in (repo.resolve_method(cls, "solve_stochast"),):
         fcfg, fdf = cfg_of(fn_), dataflow_of(fn_)
         written = {}
         for n in fcfg.stmt_nodes():
